@@ -382,7 +382,52 @@ var ctVariants = []string{
 	"", "text/plain", "application/x-protobuf2", "application/grpc", "application/x-httpgrpc-proto+v2", "application/json+x", "application/x-protobuf;;;", ";", "a/b/c",
 }
 
+// genC11jsonPair: several overlapping JSON unary calls with replies larger
+// than the server's write buffer and a slow reader, so that one reply is still
+// being written while the next is being encoded.
+func genC11jsonPair(g *gen, seed int64) *Program {
+	p := &Program{Profile: "c11", Seed: seed}
+	p.Cfg.Policy = g.pick(3)
+	p.Cfg.Frag = g.pick(4)
+	p.Cfg.SendBuf = []int{64, 512, 4096}[g.pick(3)]
+	p.Cfg.UseHandle = g.p(0.3)
+	n := 2 + g.pick(2)
+	for id := 0; id < n; id++ {
+		r := &RPC{ID: id, Transport: THTTP, Kind: KUnary, Svc: "sim.S", Meth: fmt.Sprintf("M%d", id), RawClient: true}
+		r.Call = "/" + r.Svc + "/" + r.Meth
+		msg := g.msg()
+		if msg.Size > 300 {
+			msg.Size = 300
+		}
+		r.ReqSpec = msg
+		ct := httpgrpc.ApplicationJson
+		if g.p(0.25) {
+			ct = httpgrpc.UnaryRpcContentType_V1 // a protobuf call in between
+		}
+		rq := &RawReq{Method: "POST", Path: r.Call, Hdrs: []KV{{K: "Content-Type", V: RawStr(ct)}}}
+		if ct == httpgrpc.ApplicationJson {
+			jb, _ := protojson.Marshal(msg.Build())
+			rq.Body, rq.Note = RawStr(jb), "json"
+		} else {
+			rq.Body, rq.Note = RawStr(mustMarshal(msg.Build())), "proto"
+		}
+		r.Client = []Op{{K: "raw", Raw: rq}}
+		ret := g.msg()
+		ret.Kind = 0
+		ret.Size = 3000 + g.pick(9000)
+		if ret.Size > 150*p.Cfg.SendBuf {
+			ret.Size = 150 * p.Cfg.SendBuf
+		}
+		r.Handler = []Op{{K: "decode"}, {K: "return", Msg: ret}}
+		p.RPCs = append(p.RPCs, r)
+	}
+	return p
+}
+
 func genC11(g *gen, seed int64) *Program {
+	if g.p(0.07) {
+		return genC11jsonPair(g, seed)
+	}
 	p := &Program{Profile: "c11", Seed: seed}
 	p.Cfg.Policy = g.pick(3)
 	p.Cfg.NetEager = g.p(0.5)
@@ -842,7 +887,10 @@ func genC14(g *gen, seed int64) *Program {
 		if st < 100 {
 			st += 500
 		}
-		p.Canned = &Canned{Status: st, NoGRPC: true, Raw: "x", RawNote: fmt.Sprintf("HTTP %d without X-GRPC-Status", st)}
+		// the body is alternately empty (decodes to an empty message), a valid
+		// encoding, and garbage: with a decodable body only the status decides
+		body := []string{"", string(mustMarshal((&MsgSpec{Tag: 5, Size: 6}).Build())), "x"}[g.pick(3)]
+		p.Canned = &Canned{Status: st, NoGRPC: true, Raw: RawStr(body), RawNote: fmt.Sprintf("HTTP %d without X-GRPC-Status", st)}
 		r.Client = []Op{{K: "invoke", Msg: g.msg()}}
 		r.Handler = []Op{{K: "decode"}, {K: "return", Msg: g.msg()}}
 		p.RPCs = []*RPC{r}
